@@ -95,6 +95,10 @@ def run(ctx):
         # a station exactly on the 180 meridian can be written -180 or +180 in a [-180,180] dataset: both name the same place
         plus180 = (not dten) and ctx.rng.random() < 0.5
         ds = dataset(st, cd, (lambda u, c: 180.0 if (u == 360 and c == 180) else rep(u, c)) if plus180 else R)
+        # stations that sit on whole degrees may be STORED as integers (hand-built station lists): the query keeps its fractions
+        if (not dten) and all(float(x).is_integer() for x in ds.lon.values) and all(float(x).is_integer() for x in ds.lat.values) and ctx.rng.random() < 0.6:
+            ds["lon"] = (("site",), ds.lon.values.astype("int64"))
+            ds["lat"] = (("site",), ds.lat.values.astype("int64"))
         qlon = [R(q[0], cq) for q in qs]
         qlat = [q[1] / 2.0 for q in qs]
         # a query whose longitudes all lie in [0,180] reads the same in both conventions: the library then takes it as [0,360]
